@@ -145,6 +145,17 @@ theorem stable_criterion (T : Tables) (S : Sim)
     Stable T S (scanOf T S) (blkOf T S) :=
   stable_of_check T S hnd hk hp hl h1
 
+/-- Snapshots: a directory to which restarts are appended later is `Stable`
+with respect to the scans and blocks of the final directory, provided each of
+its own restarts is processed without exception — appending restarts does not
+change what an earlier restart contributes. -/
+theorem stable_prefix (T : Tables) (S : Sim) (extra : List RestartDir)
+    (hfin : Stable T (extend S extra) (scanOf T (extend S extra)) (blkOf T (extend S extra)))
+    (hp : ∀ d ∈ S.restarts, S.restarts.find? (fun x => x.nbr == d.nbr) = some d ∧
+      (processRestart T S d (scanOf T S d.nbr) none).err = none) :
+    Stable T S (scanOf T (extend S extra)) (blkOf T (extend S extra)) :=
+  stable_of_prefix T S extra hfin hp
+
 /-! ## T1 — the per-restart summary is what is on disk -/
 
 /-- At a refinement level whose keys carry, in any order, the iterations of an
@@ -276,6 +287,31 @@ example :
       (iterationsCall exT exS false emptyFS).2 :=
   incremental_eq_fresh exT _ _ [(exS, true)] exS false exS
     (fun c hc => by simp at hc; subst hc; exact exS_stable) exS_stable exS_stable
+    (by decide +kernel) (by decide +kernel)
+
+/-- restarts being added: `iterations(skip_last=False)` on restart 0 alone, then
+restart 1 appears, `iterations(skip_last=True)` (nothing new), then
+`iterations(skip_last=False)`: same file and same result as one fresh scan of
+the final directory -/
+def exS0 : Sim := { exS with restarts := exS.restarts.take 1 }
+
+theorem exS0_stable : Stable exT exS0 (scanOf exT exS) (blkOf exT exS) := by
+  have h : extend exS0 (exS.restarts.drop 1) = exS := rfl
+  have := stable_prefix exT exS0 (exS.restarts.drop 1) (h ▸ exS_stable) (by decide +kernel)
+  rw [h] at this
+  exact this
+
+example :
+    (iterationsCall exT exS false (runCalls exT [(exS0, false), (exS, true)] emptyFS)).1.itfile =
+      (iterationsCall exT exS false emptyFS).1.itfile ∧
+    (iterationsCall exT exS false (runCalls exT [(exS0, false), (exS, true)] emptyFS)).2 =
+      (iterationsCall exT exS false emptyFS).2 :=
+  incremental_eq_fresh exT _ _ [(exS0, false), (exS, true)] exS false exS
+    (fun c hc => by
+      simp at hc
+      rcases hc with hc | hc
+      · subst hc; exact exS0_stable
+      · subst hc; exact exS_stable) exS_stable exS_stable
     (by decide +kernel) (by decide +kernel)
 
 example : NoSingles [(0, [(mRl ++ ['0'], Val.ints [0, 6, 2])])] := by
